@@ -261,4 +261,26 @@ theorem corevm_better_score_wins (scoresOf : Key → List Score) (group : List K
   rw [scoresLt_prefix pre hab] at h
   cases h
 
+theorem scoresEq_refl (a : List Score) : scoresEq a a = true := by
+  unfold scoresEq
+  have : scoresLt a a = false := (scoresLt_false_iff a a).2 (lt_irrefl _)
+  simp [this]
+
+/-- the picked head is among the EXACT ties of the best head: its unpadded score vector equals (value by value, same length)
+    the vector of the first head in the descending order -/
+theorem corevm_picked_among_exact_ties (scoresOf : Key → List Score) (ordered : List Key) (c : Nat)
+    (hc : c < equalPrefixLen scoresOf ordered) : scoresEq (scoresOf ordered[c]!) (scoresOf ordered[0]!) = true := by
+  cases ordered with
+  | nil => simp [equalPrefixLen] at hc
+  | cons k0 rest =>
+    cases c with
+    | zero => exact scoresEq_refl _
+    | succ j =>
+      simp only [equalPrefixLen] at hc
+      obtain ⟨hj, hp⟩ := takeWhile_getElem_true (fun k => scoresEq (scoresOf k) (scoresOf k0)) rest j (by omega)
+      have hidx : (k0 :: rest)[j + 1]! = rest[j] := by
+        rw [getElem!_pos (k0 :: rest) (j + 1) (by simp; omega)]; rfl
+      have h0 : (k0 :: rest)[0]! = k0 := rfl
+      rw [hidx, h0]; exact hp
+
 end NemoVerif.CoreVM
